@@ -228,6 +228,10 @@ class C10(Check):
                         for cmd in cmds:
                             cs.append({"kind": "reconnect", "platform": platform, "file": fstate,
                                        "force": force, "v1": v1, "cmd": cmd})
+                        # the client of that request is gone by the time the reply is written
+                        for client in ("reset", "closed"):
+                            cs.append({"kind": "reconnect", "platform": platform, "file": fstate,
+                                       "force": force, "v1": v1, "cmd": cmds[0], "client": client})
         return cs
 
     # ------------------------------------------------------------------
@@ -461,7 +465,8 @@ class C10(Check):
                         w.inject = lambda world, i, apdu: ("read",) if i == base else None
                     else:
                         w.inject = None
-                    o = fakeserver.serve_line(server, json.dumps(first if step == 0 else follow).encode())
+                    o = fakeserver.serve_line(server, json.dumps(first if step == 0 else follow).encode(),
+                                              client="present" if step == 0 else case.get("client", "present"))
                     if step == 0:
                         dev.power_cycle()          # the device comes back locked, in the bootloader
                     out["replies"].append((o.reply, o.exc))
